@@ -94,6 +94,8 @@ def classify(row):
             out |= {"C08", "C07"}
         elif v.startswith("range-check"):
             out.add("C07")
+        elif v.startswith("count-check"):
+            out.add("C08")
         elif v.startswith(("deadlock", "budget")):
             out.add("C13")
         elif v.startswith("panic"):
